@@ -69,6 +69,7 @@ def c14_case(draw, max_tasks=7):
     N = dt(c['N'])
     flavour = draw(st.sampled_from(['plain', 'plain', 'dead', 'ext', 'ext-undated', 'future-end', 'none-name', 'mix', 'tod-bounds', 'tod-bounds']))
     c['flavour'] = flavour
+    c['unhashable'] = draw(st.integers(0, 4)) == 0
     if hier and draw(st.booleans()):
         # build a cycle that only closes through the hierarchy: c (below S) waits for X, X waits for S (or reversed roles)
         summaries = [i for i in m.order if not m.is_leaf(i)]
@@ -202,6 +203,23 @@ def check(case, exclude=True):
     resources = specs.make_resources(case['res'])
     budget = 10 ** 6 * (len(m.order) + 1)
     wrapped, state = _counting(resources, budget)
+    if case.get('unhashable') and wrapped:
+        # a user-defined resource class that defines equality and therefore is not hashable (e.g. a plain @dataclass)
+        from pjplan import IResource
+
+        class Crew(IResource):
+            __hash__ = None
+
+            def __init__(self, inner):
+                super().__init__(inner.name)
+                self.inner = inner
+
+            def __eq__(self, other):
+                return isinstance(other, Crew) and other.name == self.name
+
+            def get_available_units(self, date, task=None):
+                return self.inner.get_available_units(date, task)
+        wrapped = [Crew(r) if k % 2 == 0 else r for k, r in enumerate(wrapped)]
     s = sched.make_scheduler(case, wrapped)
 
     def on_alarm(signum, frame):
